@@ -279,6 +279,12 @@ class Engine:
                 self.solver.pop()
         self.checks.append((label, ok, None if ok else dict(model=model, detail=detail)))
         return ok
+    def is_valid(self, cond):
+        """does `cond` hold for every assignment satisfying the path condition? (a query, not a recorded check)"""
+        c = as_bool(cond if isinstance(cond, bool) else z3.simplify(cond))
+        if c is True or c is False:
+            return c
+        return not self.sat(z3.Not(c))
     def _model_summary(self):
         try:
             m = self.solver.model()
